@@ -600,3 +600,51 @@ func vfOracleC17(env *vfEnv, m *LockManager, pre, post *vfSnap, op int, cmd *pro
 		}
 	}
 }
+
+// C03_relock: a hold taken by connection A is re-locked or updated by connection B (same LockId);
+// when it later expires, the EXPRIED notice must go to the connection that last set its terms,
+// under that request's RequestId — and never carry a RequestId the addressed connection did not send.
+func init() { vfHarnesses["C03_relock"] = vfH_C03_relock }
+
+func vfH_C03_relock() {
+	env := vfNewEnv(2)
+	vfSetDBTime(env.db, vfBaseTime)
+	key := vfKey(1)
+	a := env.newCmd(protocol.COMMAND_LOCK, key, vfLockId(1))
+	a.Expried, a.ExpriedFlag, a.Count, a.Rcount = 3, 0x0200, vfU16("count"), vfU8("rcount")
+	env.lock(0, a)
+	owner, ownerReq := 0, a.RequestId
+	b := env.newCmd(protocol.COMMAND_LOCK, key, vfLockId(1))
+	b.Count, b.Rcount = a.Count, vfU8("rcount2")
+	b.ExpriedFlag = 0x0200
+	kind := vfChoice("kind", 3)
+	switch kind {
+	case 0: // re-entrant re-lock
+		b.Expried = 3
+	case 1: // update with a different expiry
+		b.Flag, b.Expried = 0x02, 9
+	case 2: // update that leaves everything as it is (may be ignored)
+		b.Flag, b.Expried, b.Rcount = 0x02, 3, a.Rcount
+	}
+	n := len(env.replies)
+	env.lock(1, b)
+	vfAssert(len(env.replies) == n+1 && env.replies[n].proto == 1 && env.replies[n].reqId == b.RequestId, "C03: the re-lock/update was not answered exactly once on its own connection")
+	hs := vfHolders(env.manager(key))
+	vfAssert(len(hs) == 1, "C03: the hold vanished")
+	if hs[0].command.RequestId == b.RequestId {
+		vfReach("terms-replaced")
+		owner, ownerReq = 1, b.RequestId
+	}
+	n = len(env.replies)
+	vfTick(env, 12)
+	ex := 0
+	for _, r := range env.replies[n:] {
+		if r.result == protocol.RESULT_EXPRIED {
+			ex++
+			vfAssert(r.reqId == ownerReq, "C03: EXPRIED is not under the RequestId of the request that last set the hold's terms")
+			vfAssert(r.proto == owner, "C03: EXPRIED was delivered to a connection that did not send that RequestId")
+		}
+	}
+	vfAssert(ex == 1, "C03: the hold did not draw exactly one EXPRIED notice")
+	vfReach("end")
+}
